@@ -440,6 +440,28 @@ func TestC02(t *testing.T) {
 	r.Extra["exhaustive_note"] = fmt.Sprintf("all witness stacks of length 0..%d over the 12-item alphabet for every (chain, csv, version, sequence) combination; length 4 for the boundary sequences in quick; lengths 5-6 sampled", exhaustiveLen)
 	r.Sample(map[string]any{"stack": "[sigT P empty empty] + script", "seq": 0, "version": 2, "verdict": "accept (preimage path)"})
 	r.Sample(map[string]any{"stack": "[sigM] + script", "seq": "csv-1", "version": 2, "verdict": "reject (BIP112)"})
+	// the script real makers fund (whole-node worlds): protocol 7 on both sides, the taker's own message carries other
+	// values in the fields the maker does not validate
+	{
+		type fc struct {
+			chain, typ string
+			v          uint8
+		}
+		var fcs []fc
+		for _, ch := range []string{"btc", "lbtc"} {
+			for _, v := range []uint8{7, 0, 6, 8, 255} {
+				fcs = append(fcs, fc{ch, "in", v})
+			}
+			fcs = append(fcs, fc{ch, "out", 7})
+		}
+		parallelDo(len(fcs)*r.N(1, 5), 8, func(i int) {
+			c := fcs[i%len(fcs)]
+			runC02Funded(r, r.Seed*3011+int64(i)+1, c.chain, c.typ, c.v)
+		})
+		if n, _ := r.Extra["funded_scripts_judged"].(int); n < 4 {
+			r.Inconclusive(fmt.Sprintf("only %d funded scripts judged", n))
+		}
+	}
 	r.Require(accepts > 0, "no accepting execution observed")
 	r.Require(r.Evaluations > 10000, "too few executions")
 }
